@@ -30,6 +30,7 @@ package deferred
 //@   call[Storage.Has#0] assert delegate [C20]: arg1 == ctx && arg2 == key && dcw.w != nil && ref(arg0) == ref(dcw.w)
 
 //@ func (*DeferredCarWriter).Put
+//@   call[DeferredCarWriter.writer#0] assert after_every_registered_callback_ran [C20]: dcw.putCb == nil || i == len(dcw.putCb)
 //@   requires unlocked [C08]: held(dcw.lk) == 0
 //@   effects require never_directly [C20]: false
 //@   loop[0] invariant index_in_range [C09]: 0 <= i && i <= len(dcw.putCb)
@@ -71,6 +72,7 @@ package deferred
 // opener streams into this writer and commits under the link's own binary key.
 
 //@ func (*DeferredCarWriter).OnPut
+//@   call[append#0] assert keeps_the_callbacks_already_registered [C20]: (old(dcw.putCb) != nil ==> len(arg0) == old(len(dcw.putCb))) && (old(dcw.putCb) == nil ==> len(arg0) == 0)
 //@   call[append#0] assert registers_the_callback_as_given [C20]: len(arg1) == 1 && arg1[0].cb == cb && arg1[0].once == once && ref(arg0) == ref(dcw.putCb)
 
 //@ func (*DeferredCarWriter).BlockWriteOpener
